@@ -542,6 +542,53 @@ def step' (s : State) (op : Op) : State :=
 
 def run (s : State) (ops : List Op) : State := ops.foldl step' s
 
+/-! ## Storage layout of releases before 3.1.0 (environment layer; ADDED in round 3, nothing above is changed)
+
+A collection written by a release older than 3.1.0 has NO `royalty_updated_at` item (it is created by
+`upgrades::v3_1_0::upgrade`). `State` cannot say "absent" and nothing in `step` reads the item — the royalty rules are a
+witness — so the absence is tracked NEXT to the state: `XState.ruaAbsent`. `XOp.dropRoyaltyStamp` is the environment step
+"this collection has the pre-3.1.0 layout" (harness: the typed item is removed from the contract's storage). With the item
+absent `update_collection_info` cannot accept a requested royalty (it hard-loads the item); the migration to the
+sg721-updatable code from a stored version below 3.1.0 re-creates it (`now − 24 h`, already in `migrateToUpdatable`). -/
+
+structure XState where
+  core : State
+  /-- the `royalty_updated_at` item does not exist (pre-3.1.0 layout) -/
+  ruaAbsent : Bool
+deriving Repr, DecidableEq
+
+inductive XOp where
+  | op (o : Op)
+  | dropRoyaltyStamp
+deriving Repr, DecidableEq
+
+/-- does the message ask for a royalty change that the royalty block would have to accept -/
+def royaltyAcceptRequested : Op → Bool
+  | .exec ⟨_, _, _, .updateCollectionInfo u racc⟩ =>
+    racc && (match u.royalty with | some (some _) => true | _ => false)
+  | _ => false
+
+/-- does a SUCCESSFUL `o` from `s` run `v3_1_0::upgrade` (which writes the item) -/
+def recreatesRoyaltyStamp (s : State) : Op → Bool
+  | .migrate .updatable _ => decide (s.ver < V_3_1_0)
+  | _ => false
+
+def xstep (x : XState) : XOp → Except Err XState
+  | .dropRoyaltyStamp => .ok { x with ruaAbsent := true }
+  | .op o =>
+    if x.ruaAbsent && royaltyAcceptRequested o then .error .notFound
+    else
+      match step x.core o with
+      | .ok s' => .ok ⟨s', x.ruaAbsent && !recreatesRoyaltyStamp x.core o⟩
+      | .error e => .error e
+
+def xstep' (x : XState) (o : XOp) : XState :=
+  match xstep x o with
+  | .ok x' => x'
+  | .error _ => x
+
+def xrun (x : XState) (ops : List XOp) : XState := ops.foldl xstep' x
+
 /-! ## Instantiate -/
 
 /-- `Sg721Contract::instantiate` (+ the flags of sg721-updatable's `_instantiate`) -/
